@@ -40,7 +40,7 @@ func sortedTriples(t []triple) []string {
 func apiTriples(conns []connlist.Peer2PeerConnection) []triple {
 	var t []triple
 	for _, c := range conns {
-		t = append(t, triple{c.Src().String(), c.Dst().String(), strings.ReplaceAll(connStrOf(c), "_", " ")})
+		t = append(t, triple{c.Src().String(), c.Dst().String(), indepConnStr(c)})
 	}
 	return t
 }
@@ -138,6 +138,7 @@ type libRun struct {
 	out   string
 	err   error
 	conns []connlist.Peer2PeerConnection
+	xs    []connlist.ExposedPeer
 }
 
 func libList(dir, format, focus string, exposure, stop bool) libRun {
@@ -154,7 +155,7 @@ func libList(dir, format, focus string, exposure, stop bool) libRun {
 		return libRun{err: err}
 	}
 	out, err := ca.ConnectionsListToString(conns)
-	return libRun{out: out, err: err, conns: conns}
+	return libRun{out: out, err: err, conns: conns, xs: ca.ExposedPeers()}
 }
 
 var realBinary = ""
@@ -299,6 +300,11 @@ func execFmtCase(c *Sx, env *execEnv) (*Sx, []Violation) {
 			if strings.Join(g, "\n") != strings.Join(want, "\n") {
 				rep("C09", "format-does-not-encode-result", fmt.Sprintf("format %s: parsed %d triples, API returned %d; first difference: %s", f, len(g), len(want), firstDiff(g, want)))
 			}
+			if exposure && f != "dot" {
+				if m := checkExposureSections(f, l1.out, l1.conns, l1.xs); m != "" {
+					rep("C09", "exposure-section-does-not-encode-result", fmt.Sprintf("format %s: %s", f, m))
+				}
+			}
 			if ref == nil {
 				ref = g
 			} else if strings.Join(g, "\n") != strings.Join(ref, "\n") {
@@ -334,7 +340,10 @@ func execFmtCase(c *Sx, env *execEnv) (*Sx, []Violation) {
 					return s, err, cd
 				}
 				o1, e1, cd := mk()
-				o2, e2, _ := mk()
+				o2, e2 := o1, e1
+				for k := 0; k < 4 && (e1 == nil) == (e2 == nil) && o1 == o2; k++ { // map orders differ between runs
+					o2, e2, _ = mk()
+				}
 				env.count("fmt-diff:" + f)
 				if (e1 == nil) != (e2 == nil) || o1 != o2 {
 					rep("C08", "nondeterministic-diff-output", fmt.Sprintf("diff format %s: two runs differ", f))
@@ -393,12 +402,12 @@ func firstDiff(a, b []string) string {
 
 // checkDiffFormat: the formatted diff holds exactly the added / removed / changed entries (dot: also unchanged)
 func checkDiffFormat(format, out string, cd diff.ConnectivityDiff) string {
-	type row struct{ typ, src, dst, c1, c2 string }
-	var want []row
+	var want []diffRow
 	add := func(l []diff.SrcDstDiff) {
 		for _, d := range l {
-			want = append(want, row{string(d.DiffType()), d.Src().String(), d.Dst().String(),
-				strings.ReplaceAll(acStr(d.Ref1Connectivity()), "_", " "), strings.ReplaceAll(acStr(d.Ref2Connectivity()), "_", " ")})
+			want = append(want, diffRow{string(d.DiffType()), d.Src().String(), d.Dst().String(),
+				strings.ReplaceAll(acStr(d.Ref1Connectivity()), "_", " "), strings.ReplaceAll(acStr(d.Ref2Connectivity()), "_", " "),
+				d.IsSrcNewOrRemoved(), d.IsDstNewOrRemoved()})
 		}
 	}
 	add(cd.AddedConnections())
@@ -417,6 +426,8 @@ func checkDiffFormat(format, out string, cd diff.ConnectivityDiff) string {
 		}
 	}
 	switch format {
+	case "dot":
+		return checkDiffDot(out, want, "dir1")
 	case "csv":
 		rd := csv.NewReader(strings.NewReader(out))
 		rd.FieldsPerRecord = -1
@@ -426,16 +437,16 @@ func checkDiffFormat(format, out string, cd diff.ConnectivityDiff) string {
 		}
 		got := map[string]bool{}
 		for i, r := range recs {
-			if i == 0 || len(r) < 5 {
+			if i == 0 || len(r) < 6 {
 				continue
 			}
-			got[strings.Join(r[:5], "|")] = true
+			got[strings.Join(r[:6], "|")] = true
 		}
 		if len(recs)-1 != len(want) {
 			return fmt.Sprintf("%d rows for %d entries", len(recs)-1, len(want))
 		}
 		for _, r := range want {
-			k := strings.Join([]string{r.typ, r.src, r.dst, r.c1, r.c2}, "|")
+			k := strings.Join([]string{r.typ, r.src, r.dst, r.c1, r.c2, expectedDiffInfo(r)}, "|")
 			if !got[k] {
 				return "row missing: " + k
 			}
@@ -453,7 +464,8 @@ func checkDiffFormat(format, out string, cd diff.ConnectivityDiff) string {
 		for _, r := range want {
 			found := false
 			for _, l := range strings.Split(out, "\n") {
-				if strings.Contains(l, r.typ) && strings.Contains(l, r.src) && strings.Contains(l, r.dst) && strings.Contains(l, r.c1) && strings.Contains(l, r.c2) {
+				if strings.Contains(l, r.typ) && strings.Contains(l, r.src) && strings.Contains(l, r.dst) && strings.Contains(l, r.c1) && strings.Contains(l, r.c2) &&
+					strings.Contains(l, expectedDiffInfo(r)) && (expectedDiffInfo(r) != "" || !strings.Contains(l, "workload ")) {
 					found = true
 					break
 				}
@@ -485,11 +497,17 @@ func genFmtCase(r *Rng, id int, tier string) *Sx {
 	if r.P(50) {
 		// a second world for the diff formats
 		b := cloneWorld(w)
-		if len(b.Objs) > 1 {
-			j := r.Intn(len(b.Objs))
-			b.Objs = append(b.Objs[:j], b.Objs[j+1:]...)
+		if r.P(40) {
+			if len(b.Objs) > 1 {
+				j := r.Intn(len(b.Objs))
+				b.Objs = append(b.Objs[:j], b.Objs[j+1:]...)
+			}
+			b.Objs = append(b.Objs, Obj{Kind: "np", Np: genNetPol(r, cfg, "ns0", "extra")})
+		} else {
+			for i, n := 0, r.Range(1, 3); i < n; i++ {
+				editForDiff(r, cfg, b, i)
+			}
 		}
-		b.Objs = append(b.Objs, Obj{Kind: "np", Np: genNetPol(r, cfg, "ns0", "extra")})
 		c.Add(b.Sx())
 	}
 	return c
